@@ -178,7 +178,7 @@ func (fr *Frame) exec(in ssa.Instruction, st *State) error {
 		et := x.Type().Underlying().(*types.Slice).Elem()
 		es := c.sortOf(et)
 		k := c.regElem(es)
-		zarr := Term{fmt.Sprintf("((as const %s) %s)", arraySort(c.sc.idxSort(), es), c.zero(et).S), arraySort(c.sc.idxSort(), es)}
+		zarr := c.zeroArray(et)
 		st.set(k, c.sc.define("elems", sto(c.get(st, k), r, zarr)))
 		fr.setVal(x, c.sc.define(x.Name(), c.mkSlice(r, z, ln, cp)))
 		return nil
